@@ -1,0 +1,196 @@
+//go:build verif
+// +build verif
+
+package raft
+
+// Contracts for the deductive verifier in /verif (govc).  Comment-only file,
+// compiled only under the build tag `verif`.
+
+//@ property C02
+
+// ================= abstract view of the stable storage (interface Storage) =================
+// ghost(sfirst, s) / ghost(slast, s): first / last index held; sterm(s, i): term of entry i.
+// raftLog never writes to its storage, so these are constant during every function below.
+//@ spec sterm(s Storage, i uint64) uint64
+//@ spec sOK(s Storage) bool = s != nil && 1 <= ghost(sfirst, s) && ghost(sfirst, s) <= ghost(slast, s) + 1 && ghost(slast, s) < 4611686018427387904
+
+//@ interface (github.com/youzan/ZanRedisDB/raft.Storage).FirstIndex func(s Storage) (uint64, error)
+//@   ensures result1 == nil ==> result0 == ghost(sfirst, s)
+//@ interface (github.com/youzan/ZanRedisDB/raft.Storage).LastIndex func(s Storage) (uint64, error)
+//@   ensures result1 == nil ==> result0 == ghost(slast, s)
+//@ interface (github.com/youzan/ZanRedisDB/raft.Storage).Term func(s Storage, i uint64) (uint64, error)
+//@   ensures result1 == nil ==> ghost(sfirst, s) - 1 <= i && i <= ghost(slast, s) && result0 == sterm(s, i)
+//@   ensures i < ghost(sfirst, s) - 1 ==> result1 == ErrCompacted
+//@   ensures i > ghost(slast, s) ==> result1 == ErrUnavailable
+//@   ensures ghost(sfirst, s) - 1 <= i && i <= ghost(slast, s) ==> result1 != ErrCompacted && result1 != ErrUnavailable
+//@ interface (github.com/youzan/ZanRedisDB/raft.Storage).Entries func(s Storage, lo uint64, hi uint64, maxSize uint64) ([]pb.Entry, error)
+//@   requires lo <= hi
+//@   ensures lo < ghost(sfirst, s) ==> result1 == ErrCompacted
+//@   ensures lo >= ghost(sfirst, s) ==> result1 != ErrCompacted
+//@   ensures result1 == nil ==> hi <= ghost(slast, s) + 1 && len(result0) <= hi - lo && (lo < hi ==> len(result0) >= 1) && fresh(result0)
+//@   ensures result1 == nil ==> (forall k int :: 0 <= k && k < len(result0) ==> result0[k].Index == lo + k && result0[k].Term == sterm(s, lo + k))
+
+// ================= unstable part of the log =================
+// contig(ents, first): entry k carries index first+k (stated with a relative and an absolute-position quantifier: two trigger shapes)
+//@ spec contig(ents []pb.Entry, first uint64) bool = (forall k int :: 0 <= k && k < len(ents) ==> ents[k].Index == first + k) && (forall p int :: ents.off <= p && p < ents.off + len(ents) ==> at(ents, p).Index == first + (p - ents.off))
+//@ spec uOK(u *unstable) bool = u != nil && contig(u.entries, u.offset) && (u.snapshot != nil ==> u.snapshot.Metadata.Index + 1 <= u.offset && u.snapshot.Metadata.Index < 4611686018427387904) && u.offset + len(u.entries) < 4611686018427387904 && u.offset >= 1
+
+//@ func (u *unstable) maybeFirstIndex() (uint64, bool)
+//@   requires uOK(u)
+//@   ensures result1 <==> u.snapshot != nil
+//@   ensures result1 ==> result0 == u.snapshot.Metadata.Index + 1
+
+//@ func (u *unstable) maybeLastIndex() (uint64, bool)
+//@   requires uOK(u)
+//@   ensures result1 <==> (len(u.entries) != 0 || u.snapshot != nil)
+//@   ensures len(u.entries) != 0 ==> result0 == u.offset + len(u.entries) - 1
+//@   ensures len(u.entries) == 0 && u.snapshot != nil ==> result0 == u.snapshot.Metadata.Index
+
+//@ func (u *unstable) maybeTerm(i uint64) (uint64, bool)
+//@   requires uOK(u)
+//@   ensures result1 <==> ((i >= u.offset && i < u.offset + len(u.entries)) || (i < u.offset && u.snapshot != nil && u.snapshot.Metadata.Index == i))
+//@   ensures result1 && i >= u.offset ==> result0 == u.entries[i - u.offset].Term
+//@   ensures result1 && i < u.offset ==> result0 == u.snapshot.Metadata.Term
+
+//@ func (u *unstable) mustCheckOutOfBounds(lo uint64, hi uint64)
+//@   requires uOK(u)
+//@   ensures lo <= hi && u.offset <= lo && hi <= u.offset + len(u.entries)
+
+//@ func (u *unstable) slice(lo uint64, hi uint64) []pb.Entry
+//@   requires uOK(u)
+//@   ensures u.offset <= lo && lo <= hi && hi <= u.offset + len(u.entries) && sameSlice(result, u.entries[lo - u.offset : hi - u.offset])
+
+//@ func (u *unstable) shrinkEntriesArray()
+//@   requires uOK(u)
+//@   ensures len(u.entries) == old(len(u.entries)) && (forall k int :: 0 <= k && k < len(u.entries) ==> u.entries[k].Index == old(u.entries[k].Index) && u.entries[k].Term == old(u.entries[k].Term))
+//@   modifies u.entries
+
+// entries up to i are dropped from the unstable part only when (i, t) really is an unstable entry
+//@ func (u *unstable) stableTo(i uint64, t uint64)
+//@   requires uOK(u)
+//@   ensures uOK(u)
+//@   ensures old(i >= u.offset && i < u.offset + len(u.entries) && u.entries[i - u.offset].Term == t) ==> u.offset == i + 1 && len(u.entries) == old(len(u.entries)) - (i + 1 - old(u.offset)) && (forall k int :: 0 <= k && k < len(u.entries) ==> u.entries[k].Term == old(u.entries[k + (i + 1 - u.offset)].Term))
+//@   ensures !old(i >= u.offset && i < u.offset + len(u.entries) && u.entries[i - u.offset].Term == t) ==> u.offset == old(u.offset) && sameSlice(u.entries, old(u.entries))
+//@   modifies u.entries, u.offset
+
+//@ func (u *unstable) stableSnapTo(i uint64)
+//@   requires uOK(u)
+//@   ensures uOK(u) && (u.snapshot == nil || u.snapshot == old(u.snapshot))
+//@   ensures old(u.snapshot != nil && u.snapshot.Metadata.Index == i) ==> u.snapshot == nil
+//@   modifies u.snapshot
+
+//@ func (u *unstable) restore(s pb.Snapshot)
+//@   requires u != nil && s.Metadata.Index + 1 < 4611686018427387904
+//@   ensures uOK(u)
+//@   ensures u.offset == s.Metadata.Index + 1 && len(u.entries) == 0
+//@   ensures u.snapshot != nil && fresh(u.snapshot)
+//@   ensures u.snapshot.Metadata.Index == s.Metadata.Index && u.snapshot.Metadata.Term == s.Metadata.Term
+//@   modifies u.offset, u.entries, u.snapshot
+
+// the unstable suffix from ents[0].Index on is replaced by ents; nothing below ents[0].Index changes
+//@ func (u *unstable) truncateAndAppend(ents []pb.Entry)
+//@   requires uOK(u) && len(ents) >= 1 && contig(ents, ents[0].Index) && ents[0].Index >= 1 && ents[0].Index + len(ents) < 4611686018427387904
+//@   requires u.snapshot != nil ==> u.snapshot.Metadata.Index + 1 <= ents[0].Index
+//@   requires u.entries.arr != ents.arr
+//@   ensures uOK(u) && u.snapshot == old(u.snapshot)
+//@   ensures old(ents[0].Index) <= old(u.offset + len(u.entries))
+//@   ensures u.offset == min(old(u.offset), old(ents[0].Index)) && u.offset + len(u.entries) == old(ents[0].Index) + len(ents)
+//@   ensures forall i uint64 :: u.offset <= i && i < old(ents[0].Index) ==> u.entries[i - u.offset].Term == old(u.entries[i - u.offset].Term)
+//@   ensures forall k int :: 0 <= k && k < len(ents) ==> u.entries[old(ents[0].Index) - u.offset + k].Term == old(ents[k].Term)
+//@   modifies u.entries, u.offset, u.entries[len(u.entries):cap(u.entries)]
+
+// ================= the raft log: unstable entries over stable storage =================
+//@ spec lfirst(l *raftLog) uint64 = ite(l.unstable.snapshot != nil, l.unstable.snapshot.Metadata.Index + 1, ghost(sfirst, l.storage))
+//@ spec llast(l *raftLog) uint64 = ite(len(l.unstable.entries) > 0, l.unstable.offset + len(l.unstable.entries) - 1, ite(l.unstable.snapshot != nil, l.unstable.snapshot.Metadata.Index, ghost(slast, l.storage)))
+// term of the entry at index i (meaningful for lfirst(l)-1 <= i <= llast(l))
+//@ spec lterm(l *raftLog, i uint64) uint64 = ite(i >= l.unstable.offset && i < l.unstable.offset + len(l.unstable.entries), l.unstable.entries[i - l.unstable.offset].Term, ite(l.unstable.snapshot != nil && l.unstable.snapshot.Metadata.Index == i, l.unstable.snapshot.Metadata.Term, sterm(l.storage, i)))
+//@ spec lOK(l *raftLog) bool = l != nil && sOK(l.storage) && uOK(&l.unstable) && l.unstable.offset <= ghost(slast, l.storage) + 1 && (l.unstable.snapshot == nil ==> ghost(sfirst, l.storage) <= l.unstable.offset) && (l.unstable.snapshot != nil && l.unstable.snapshot.Metadata.Index + 1 < l.unstable.offset ==> ghost(sfirst, l.storage) <= l.unstable.snapshot.Metadata.Index + 2) && lfirst(l) <= llast(l) + 1 && l.committed <= llast(l) && l.applied <= l.committed && l.logger == l.unstable.logger
+
+//@ func (l *raftLog) firstIndex() uint64
+//@   requires lOK(l)
+//@   ensures result == lfirst(l)
+//@ func (l *raftLog) lastIndex() uint64
+//@   requires lOK(l)
+//@   ensures result == llast(l)
+
+//@ func (l *raftLog) term(i uint64) (uint64, error)
+//@   requires lOK(l)
+//@   ensures (i < lfirst(l) - 1 || i > llast(l)) ==> result0 == 0 && result1 == nil
+//@   ensures lfirst(l) - 1 <= i && i <= llast(l) && result1 == nil ==> result0 == lterm(l, i)
+//@   ensures result1 == nil || result1 == ErrCompacted || result1 == ErrUnavailable
+//@   ensures lfirst(l) - 1 <= i && i <= llast(l) ==> result1 == nil
+
+//@ func (l *raftLog) zeroTermOnErrCompacted(t uint64, err error) uint64
+//@   requires l != nil
+//@   ensures err == nil ==> result == t
+//@   ensures err == ErrCompacted ==> result == 0
+//@   ensures err == nil || err == ErrCompacted
+
+//@ func (l *raftLog) lastTerm() uint64
+//@   requires lOK(l)
+//@   ensures result == lterm(l, llast(l))
+
+//@ func (l *raftLog) matchTerm(i uint64, term uint64) bool
+//@   requires lOK(l)
+//@   ensures lfirst(l) - 1 <= i && i <= llast(l) ==> (result <==> lterm(l, i) == term)
+//@   ensures (i < lfirst(l) - 1 || i > llast(l)) ==> (result <==> term == 0)
+
+//@ func (l *raftLog) isUpToDate(lasti uint64, term uint64) bool
+//@   requires lOK(l)
+//@   ensures result <==> (term > lterm(l, llast(l)) || (term == lterm(l, llast(l)) && lasti >= llast(l)))
+
+// commit index only moves forward and never beyond the last entry
+//@ func (l *raftLog) commitTo(tocommit uint64)
+//@   requires lOK(l)
+//@   ensures lOK(l) && l.committed == max(old(l.committed), tocommit) && tocommit <= llast(l) || l.committed == old(l.committed) && tocommit <= old(l.committed)
+//@   ensures l.committed == max(old(l.committed), tocommit)
+//@   modifies l.committed
+
+//@ func (l *raftLog) appliedTo(i uint64)
+//@   requires lOK(l)
+//@   ensures lOK(l) && (i == 0 ==> l.applied == old(l.applied)) && (i != 0 ==> l.applied == i && old(l.applied) <= i && i <= l.committed)
+//@   modifies l.applied
+
+// the current-term rule: an index is committed by counting only if the entry at it carries the given term
+//@ func (l *raftLog) maybeCommit(maxIndex uint64, term uint64) bool
+//@   requires lOK(l) && term != 0
+//@   ensures lOK(l)
+//@   ensures result <==> (maxIndex > old(l.committed) && maxIndex <= llast(l) && lfirst(l) - 1 <= maxIndex && lterm(l, maxIndex) == term)
+//@   ensures result ==> l.committed == maxIndex
+//@   ensures !result ==> l.committed == old(l.committed)
+//@   modifies l.committed
+
+//@ func min(a uint64, b uint64) uint64
+//@   inline
+//@ func max(a uint64, b uint64) uint64
+//@   inline
+
+//@ extern (*github.com/youzan/ZanRedisDB/raft/raftpb.Entry).Size func(m *Entry) int
+//@   ensures result >= 0 && result < 1099511627776
+
+// a non-empty prefix (size limit)
+//@ func limitSize(ents []pb.Entry, maxSize uint64) []pb.Entry
+//@   trusted nooverflow
+//@   ensures len(ents) == 0 ==> len(result) == 0
+//@   ensures len(ents) > 0 ==> 1 <= len(result) && len(result) <= len(ents) && sameSlice(result, ents[0:len(result)])
+//@ loop 1
+//@   invariant 1 <= limit && limit <= len(ents) && 0 <= size && size <= limit * 1099511627776
+
+// first index at which the given entries disagree with the log (0: all present and equal)
+//@ func (l *raftLog) findConflict(ents []pb.Entry) uint64
+//@   requires lOK(l) && (forall k int :: 0 <= k && k < len(ents) ==> ents[k].Term != 0 && ents[k].Index >= 1)
+//@   ensures result == 0 ==> (forall k int :: 0 <= k && k < len(ents) ==> lfirst(l) - 1 <= ents[k].Index && ents[k].Index <= llast(l) && lterm(l, ents[k].Index) == ents[k].Term)
+//@   ensures result != 0 ==> (exists k int :: 0 <= k && k < len(ents) && ents[k].Index == result && !(lfirst(l) - 1 <= ents[k].Index && ents[k].Index <= llast(l) && lterm(l, ents[k].Index) == ents[k].Term) && (forall j int :: 0 <= j && j < k ==> lfirst(l) - 1 <= ents[j].Index && ents[j].Index <= llast(l) && lterm(l, ents[j].Index) == ents[j].Term))
+//@ loop 1
+//@   invariant lOK(l) && (forall j int :: 0 <= j && j < iter ==> lfirst(l) - 1 <= ents[j].Index && ents[j].Index <= llast(l) && lterm(l, ents[j].Index) == ents[j].Term)
+
+// append: entries below ents[0].Index keep their terms; never truncates at or below the commit index (panics instead)
+//@ func (l *raftLog) append(ents []pb.Entry) uint64
+//@   requires lOK(l) && (len(ents) >= 1 ==> contig(ents, ents[0].Index) && ents[0].Index >= 1 && ents[0].Index <= llast(l) + 1 && ents[0].Index + len(ents) < 4611686018427387904 && l.unstable.entries.arr != ents.arr && (l.unstable.snapshot != nil ==> l.unstable.snapshot.Metadata.Index + 1 <= ents[0].Index) && ghost(sfirst, l.storage) <= ents[0].Index)
+//@   ensures lOK(l) && result == llast(l) && l.committed == old(l.committed) && l.applied == old(l.applied)
+//@   ensures len(ents) == 0 ==> llast(l) == old(llast(l))
+//@   ensures len(ents) >= 1 ==> old(ents[0].Index) - 1 >= l.committed && llast(l) == old(ents[0].Index) + len(ents) - 1
+//@   ensures len(ents) >= 1 ==> (forall i uint64 :: lfirst(l) - 1 <= i && i < old(ents[0].Index) ==> lterm(l, i) == old(lterm(l, i)))
+//@   ensures len(ents) >= 1 ==> (forall k int :: 0 <= k && k < len(ents) ==> lterm(l, old(ents[0].Index) + k) == old(ents[k].Term))
+//@   ensures lfirst(l) == old(lfirst(l))
+//@   modifies l.unstable.entries, l.unstable.offset, l.unstable.entries[len(l.unstable.entries):cap(l.unstable.entries)]
